@@ -10,3 +10,7 @@ def run(ctx):
     scens = [gl.history(rnd, "h%d" % i, steps=rnd.randint(4, 9), with_construct=False) for i in range(n)]
     gl.run_grid(ctx, [("hist", scens)], gl.OBS_NODAL, "C07")
     ctx.assume("flagged sets are derived by the spec from logged normalised coefficient ratios (observer); tolerances are placed between distinct ratios")
+
+
+def replay(ctx, path):
+    return gl.replay(ctx, path, "C07", gl.OBS_NODAL)
